@@ -173,7 +173,7 @@ print(json.dumps(out))
 
 
 def cold_start(queries):
-    env = dict(os.environ, PYTHONPATH=REPO + os.pathsep + os.environ.get("PYTHONPATH", ""))
+    env = util.hash_env(19, PYTHONPATH=REPO + os.pathsep + os.environ.get("PYTHONPATH", ""))
     p = subprocess.run([sys.executable, "-c", COLD, json.dumps(queries)], capture_output=True, text=True, timeout=600, env=env, check=False)
     if p.returncode != 0:
         raise tlc.MachineryFailure("C19: cold-start interpreter failed: " + p.stderr[-400:])
